@@ -60,15 +60,12 @@ theorem snapColumnsToLayers_fresh (g g' : Geo) (t : Rat) (ht : t > 0) (cols : Li
 theorem refineLayers_fresh (g g' : Geo) (layers : List Name) (f : Nat) (h : g.refineLayers layers f = .ok g') :
     g'.namesFresh = true := by
   unfold refineLayers at h
-  obtain ⟨sel, _, h⟩ := bind_ok h
-  split at h
-  · cases h
-  · split at h
-    · cases h
-    · obtain ⟨g1, _, h⟩ := bind_ok h
-      obtain ⟨g2, _, h⟩ := bind_ok h
-      obtain ⟨g3, _, h⟩ := bind_ok h
-      exact setupNames_fresh _ _ h
+  obtain ⟨st, _, h⟩ := bind_ok h
+  obtain ⟨g1, atm⟩ := st
+  simp only at h
+  obtain ⟨g2, _, h⟩ := bind_ok h
+  obtain ⟨g3, _, h⟩ := bind_ok h
+  exact setupNames_fresh _ _ h
 
 theorem decomposeColumns_fresh (g g' : Geo) (cols : List Nat) (h : g.decomposeColumns cols = .ok g') :
     g'.namesFresh = true := by
